@@ -273,13 +273,9 @@ impl Sched {
     fn advance_woken(&mut self) -> Result<(), Stop> {
         for j in 0..self.pos.len() {
             if self.pos[j] == Pos::Parked && self.sh.woken[j].swap(false, Ordering::SeqCst) {
+                // Wherever the woken task stops next is simply its new position; the
+                // comparison with the model decides whether that is the right one.
                 self.release(j)?;
-                if self.pos[j] != Pos::Gate("fc:notified") {
-                    return Err(Stop::Panic(format!(
-                        "scheduler: woken thread {} stopped at {:?}, expected the gate fc:notified",
-                        j, self.pos[j]
-                    )));
-                }
             }
         }
         Ok(())
